@@ -2,6 +2,7 @@
 from . import dispatcher
 from . import error
 from . import utils
+import math
 
 
 @dispatcher.register_for('PV')
@@ -21,5 +22,10 @@ def PV(rate, periods, payment, future=None, type=None):
     if rate == 0:
         return -payment * periods - future
     else:
+        # (1 + rate)**periods - 1 computed without cancellation, otherwise tiny rates lose all precision
         rate_exp_periods = (1 + rate)**periods
-        return (((1 - rate_exp_periods) / rate) * payment * (1 + rate * type) - future) / rate_exp_periods
+        if rate > -1:
+            growth = math.expm1(periods * math.log1p(rate))
+        else:
+            growth = rate_exp_periods - 1
+        return ((-growth / rate) * payment * (1 + rate * type) - future) / rate_exp_periods
